@@ -239,6 +239,9 @@ def explore(ctx: Ctx):
         vr = random.Random(f'{ctx.seed}:{i}')
         for k in range(ctx.n(4, 6)):
             v, what = variant_of(d, vr)
+            rb = random.Random(f'bom:{ctx.seed}:{i}:{k}')      # own generator state: a byte-order mark at the start of some of the text inputs
+            if v['mode'] == 'sge' and rb.random() < 0.5:
+                v['bom'] = [x for x in ('targetons', 'gtf', 'manifest', 'mask') if rb.random() < 0.5]
             jobs.append((v, 'inproc', None))
             index.append((i, 'presentation', v))
     results = pool_map(run_case, jobs, chunksize=1)
